@@ -324,3 +324,64 @@ func (ex *Exec) checkGlobalInv(pk *packages.Package, g *GlobalInv) (bool, string
 	}
 	return true, ""
 }
+
+// structuralObligations checks `per_iteration v` clauses of a closure contract on the SSA of the
+// enclosing function: the closure is created inside a loop and the cell of v that it captures is
+// allocated inside that same loop, i.e. every closure instance (every goroutine started from the
+// loop) owns a different v.
+func (ex *Exec) structuralObligations(res *Output, fn *ssa.Function, con *Contract) {
+	for _, name := range con.PerIter {
+		oo := &OblOut{Name: fmt.Sprintf("%s#per-iteration[%s]", funcLabel(fn), name), Kind: "structural", Func: funcLabel(fn),
+			Text: "per_iteration " + name, Backend: "syntactic", Solver: "syntactic", Answer: "n/a", Status: "failed"}
+		res.Obligations = append(res.Obligations, oo)
+		parent := fn.Parent()
+		if parent == nil {
+			oo.Output = "not a function literal"
+			continue
+		}
+		k := -1
+		for i, fv := range fn.FreeVars {
+			if fv.Name() == name {
+				k = i
+			}
+		}
+		if k < 0 {
+			oo.Output = "the closure does not capture " + name
+			continue
+		}
+		li := computeLoops(parent)
+		found, ok := false, true
+		why := ""
+		for _, b := range parent.Blocks {
+			for _, in := range b.Instrs {
+				mc, isMC := in.(*ssa.MakeClosure)
+				if !isMC || mc.Fn != ssa.Value(fn) || k >= len(mc.Bindings) {
+					continue
+				}
+				found = true
+				al, isAlloc := mc.Bindings[k].(*ssa.Alloc)
+				if !isAlloc {
+					ok, why = false, "the captured cell is not a local allocation"
+					continue
+				}
+				inSameLoop := false
+				for _, body := range li.body {
+					if body[b] && body[al.Block()] {
+						inSameLoop = true
+					}
+				}
+				if !inSameLoop {
+					ok, why = false, fmt.Sprintf("the cell of %s is allocated outside the loop that creates the closure: all instances share it", name)
+				}
+			}
+		}
+		switch {
+		case !found:
+			oo.Output = "closure creation not found in " + funcLabel(parent)
+		case !ok:
+			oo.Output = why
+		default:
+			oo.Status = "discharged"
+		}
+	}
+}
